@@ -18,7 +18,9 @@ func Setup() { lx = lexer.NewLexer() }
 
 // lexer-state openers: the window sits at the end (truncated tails).
 var openers = []string{
-	"", "\"", "'", "`", "<<<A\n", "<<<'A'\n", "/*", "//", "#", "b'", "0x", "0b", "1e", "1.", "\"{$", "\"$", "\"@{", "<?php ", "#!", "$", "$a->", "\\", "?", "<", "<!", "a", "1", " ", "\n", "\xe3", "\xe3\x80",
+	"", "\"", "'", "`", "<<<AB\n", "<<<'AB'\n", "/*", "//", "#", "b'", "0x", "0b", "1e", "1.", "\"{$", "\"$", "\"@{", "<?php ", "#!", "$", "$a->", "\\", "?", "<", "<!", "a", "1", " ", "\n", "\xe3", "\xe3\x80",
+	// heredoc with the closing label one byte away (labels of a single character are not heredocs for this lexer)
+	"<<<AB\nx\nA", "<<<'AB'\nA", "echo <<<AB\n$a\n A",
 }
 
 func source() (src string, winStart, winLen int) {
@@ -80,8 +82,8 @@ var sandwiches = [][2]string{
 	{"$a = \"", "\";\n$b = 1;\n$c"},
 	{"$a = '", "';\n$b = 1;\n$c"},
 	{"$a = `", "`;\n$b = 1;\n$c"},
-	{"$a = <<<A\n", "\nA;\n$b = 1;\n$c"},
-	{"$a = <<<'A'\n", "\nA;\n$b = 1;\n$c"},
+	{"$a = <<<AB\n", "\nAB;\n$b = 1;\n$c"},
+	{"$a = <<<'AB'\n", "\nAB;\n$b = 1;\n$c"},
 	{"/*", "*/\n$b = 1;\n$c"},
 	{"//", "\n$b = 1;\n$c"},
 	{"#", "\n$b = 1;\n$c"},
@@ -169,7 +171,7 @@ var snippets = []string{
 	"namespace N; use A\\B; const C = 1;",
 	"$o?->p; $o::S; A::m(); $o->$n;",
 	"list($a, $b) = [1, 2]; [$c, $d] = [3, 4];",
-	"$a = <<<E\nline $x\nE;\n",
+	"$a = <<<EOT\nline $x\nEOT;\n",
 	"enum S { case A; case B; }",
 	"$a instanceof A; clone $a; unset($a); isset($a); empty($a);",
 	"$m = [\"a\" => 1, \"b\" => 2, \"c\" => [3, 4]]; f([\"k\" => $a, \"j\" => 2]);",
